@@ -265,6 +265,11 @@ def binding_demo(check, name, module, cfg, record, corrupt, expect_clause, candi
         if expect_clause in v[0].get('failed', []):
             check.parts.append(dict(part=name, kind='binding-demo', rejected_with=expect_clause))
             return True
+    if last is None and check.violations:
+        # every candidate is already rejected (the tree violates the property): nothing accepted to corrupt;
+        # the violations are reported, the demonstration is not needed to believe a rejection
+        check.parts.append(dict(part=name, kind='binding-demo', skipped='no accepted record (violations reported)'))
+        return False
     raise MachineryError(f'binding demonstration {name}: no corrupted record was rejected with '
                          f'{expect_clause}: {last}')
 
